@@ -53,7 +53,8 @@ Requirements for the change:
    something ordinary use or the existing tests would expose at once.
 3. `go build ./...` must succeed and the existing tests of every package you touched and of its direct dependants must
    still pass (`go test -count=1 ./<pkg>/...`; tests needing network may be pre-existing failures - compare with the
-   unchanged tree, e.g. via `git stash`).
+   unchanged tree by `git diff > /tmp/x.diff; git apply -R /tmp/x.diff; ...; git apply /tmp/x.diff` - NEVER use `git stash`:
+   the stash is shared with other people's worktrees of the same repository).
 4. It must differ from these changes that were already made for this property (pick another mechanism / site / trigger):
 %(taken)s
 5. Keep it small (typically < 60 changed lines), confined to non-test source files of the repository.
